@@ -67,19 +67,14 @@ def showHex (x : Nat) : String := String.ofList (Nat.toDigits 16 x)
 def hexLine (pre : String) (xs : List Nat) : String :=
   xs.foldl (fun acc x => acc ++ " " ++ showHex x) pre
 
+def hexList (xs : List Nat) : String := " ".intercalate (xs.map showHex)
+
 def parseVec (ws : List String) : Option (List Nat) :=
   ws.foldr (fun w acc => match parseHex? w, acc with
     | some x, some l => some (x :: l)
     | _, _ => none) (some [])
 
 def bit (b : Bool) : String := if b then "1" else "0"
-
-/-- IEEE zero of either sign -/
-def isZeroF (t : Ty) (x : Nat) : Bool := fmag t x == 0
-/-- `partial_cmp(a,b) != Greater` on non-NaN patterns: the total order, except that the two zeros are equal -/
-def pleB (t : Ty) (a b : Nat) : Bool := leB t a b || (isZeroF t a && isZeroF t b)
-/-- float `==` on non-NaN patterns -/
-def feqB (t : Ty) (a b : Nat) : Bool := a == b || (isZeroF t a && isZeroF t b)
 
 def listEqBy (r : Nat → Nat → Bool) : List Nat → List Nat → Bool
   | [], [] => true
@@ -114,6 +109,15 @@ def handle (c : Case) : CaseOut := Id.run do
     | ["e", h] => hasTail := true; tail := tail.push h
     | _ => vecs := vecs.push none
   if hasTail then vecs := vecs.push (parseVec tail.toList)
+  -- the implementation's `D <i> out …` lines, indexed by vector
+  let mut implOut : Array (Option (List String)) := Array.replicate vecs.size none
+  for l in c.impl do
+    match words l with
+    | "D" :: si :: "out" :: ws =>
+      match si.toNat? with
+      | some i => implOut := implOut.setIfInBounds i (some ws)
+      | none => pure ()
+    | _ => pure ()
   match modelTy tyName, specTy tyName with
   | some mt, some st =>
     let mut out : Array String := #[]
@@ -149,8 +153,9 @@ def handle (c : Case) : CaseOut := Id.run do
               out := out.push s!"D {i} std={bit stdEq} partial={bit pEq}"
             else
               out := out.push s!"D {i} std={bit stdEq}"
-            -- the bucket-level model costs 256·n key evaluations per round: cross-checked on short vectors only
-            if xs.length ≤ 12 && Radix.sortB mt xs != ml then
+            -- the bucket-level model costs 256·n key evaluations per round: cross-checked on a sample of the
+            -- short vectors only (every 32nd vector of a case; equality is `placement_eq_buckets`)
+            if xs.length ≤ 12 && i % 32 == 0 && Radix.sortB mt xs != ml then
               -- cannot happen (Props.C17.placement_eq_buckets); made visible as a disagreement if it does
               out := out.push s!"D {i} model-levels-differ"
               stt := { stt with levelsDiffer := stt.levelsDiffer + 1 }
@@ -171,24 +176,23 @@ def handle (c : Case) : CaseOut := Id.run do
           if nan then
             anySkip := some s!"vector {i}: NaN in the input"
           else if verdict matches .ok then
-            let pre := s!"D {i} out"
-            match c.impl.toList.find? (fun l => l == pre || l.startsWith (pre ++ " ")) with
+            match implOut.getD i none with
             | none =>
               let what := if c.impl.any (· == "PANIC") then "rdx_sort panicked"
                 else if c.impl.any (· == "HANG") then "rdx_sort did not terminate"
                 else if c.impl.any (· == "ABORT") then "rdx_sort aborted the process"
                 else "no output observed"
               verdict := .fail s!"vector {i} ({tyName}, {xs.length} elements): {what}"
-            | some l =>
-              match parseVec ((words l).drop 3) with
+            | some ws =>
+              match parseVec ws with
               | none => verdict := .fail s!"vector {i}: unparsable output line"
               | some ys =>
                 if !(checkB st xs ys) then
                   let why :=
                     if !(permB ys xs) then "output is not a permutation of the input"
                     else "output is not sorted in the order of " ++ tyName
-                  verdict := .fail (s!"vector {i} ({tyName}): {why}; input [{hexLine "" xs}] " ++
-                    s!"observed [{hexLine "" ys}] expected [{hexLine "" (xs.mergeSort (leB st))}]")
+                  verdict := .fail (s!"vector {i} ({tyName}): {why}; input [{hexList xs}] " ++
+                    s!"observed [{hexList ys}] expected [{hexList (xs.mergeSort (leB st))}]")
       i := i + 1
     let final := match verdict, anySkip with
       | .ok, some w => Verdict.skip w
